@@ -26,6 +26,10 @@ namespace XmppModel.Skeleton
 
 /-- Dynamic kind of a tracked value: the seven possible dynamic types of an `xml.Token`
 (`nil` interface included) and, for pointers, `nil` / `ptr` (non-nil). -/
+/- For a tracked slice / string variable the same eight values stand for its *length class*:
+kind number k (`Kind.toNat`) = length k for k ≤ 6, kind 7 (`ptr`) = length ≥ 7.  A comparison
+`len(x) op c` becomes `ifKind`, a constant index `x[c]` becomes `require x {c+1, …, 7}`; the
+checker and its soundness theorem do not care what the eight values mean. -/
 inductive Kind
   | nil | start | stop | chars | comment | procInst | directive | ptr
   deriving DecidableEq, Repr, Inhabited
